@@ -283,6 +283,10 @@ class Frames:
         self.lmeta = U.fmeta_term(lspec, self.lorder)
         self.rmeta = U.fmeta_term(rspec, self.rorder)
         self.closed = U.rings_closed(rspec['kind'], rspec['elems'])
+        def nz(arr):
+            v = np.asarray(arr.flat_values, dtype='float64') if len(arr) else np.zeros(0)
+            return bool(np.any(np.signbit(v) & (v == 0)))
+        self.negzero = ('left' if nz(self.larr) else '') + ('right' if nz(self.rarr) else '')
         self._brute = False
         if boxes_oracle:
             self._brute = boxes_pairs(lspec['elems'], rspec['elems'])
@@ -342,6 +346,8 @@ def run_call(rep, fr, how, ls, rs, batch, meta_desc, model=True):
     rep.evaluations += 1
     rep.count('how:' + how)
     rep.count('right:' + rspec['kind'])
+    if fr.negzero:
+        rep.count('has_negative_zero:' + fr.negzero)
     il, ir = gen_index_names(lspec, ls), gen_index_names(rspec, rs)
     excl = U.excluded_input(how, ls, rs, lspec, fr.lorder, rspec, fr.rorder, il, ir)
     try:
